@@ -333,9 +333,9 @@ func (s asciiString) StrictEquals(other Value) bool {
 		return s == otherStr
 	}
 	if otherStr, ok := other.(*importedString); ok {
-		if otherStr.u == nil {
-			return string(s) == otherStr.s
-		}
+		// otherStr.u must not be read without ensureScanned() (data race with a concurrent first scan), and is not needed:
+		// byte equality with an ASCII string implies that otherStr.s is ASCII.
+		return string(s) == otherStr.s
 	}
 	return false
 }
